@@ -88,11 +88,10 @@ impl<'c, 'view> NoInvalidRegexpVisitor<'c, 'view> {
   }
 
   fn check_regex(&mut self, pattern: &str, flags: &str, range: SourceRange) {
+    // The flags decide the mode: a pattern without the `u` flag (in particular
+    // one without any flags) is parsed in non-unicode mode.
     if self.check_for_invalid_flags(flags)
-      || (!flags.is_empty()
-        && self.check_for_invalid_pattern(pattern, flags.contains('u')))
-      || (self.check_for_invalid_pattern(pattern, true)
-        && self.check_for_invalid_pattern(pattern, false))
+      || self.check_for_invalid_pattern(pattern, flags.contains('u'))
     {
       self
         .context
